@@ -225,14 +225,34 @@ pub fn params(thorough: bool) -> Vec<(Vec<Vec<Op>>, usize)> {
             }
         }
     }
+    // selected programs of length 3: a value whose handles were all dropped
+    // (dead table entry) is interned again while the other thread interns,
+    // looks up or vacuums
+    let t3 = [
+        vec![Op::IA(1), Op::Drop, Op::IA(1)],
+        vec![Op::IA(1), Op::Clone, Op::Drop],
+        vec![Op::Vacuum, Op::GA(1), Op::Vacuum],
+        vec![Op::IS(1), Op::Drop, Op::IS(1)],
+        vec![Op::IA(1), Op::Drop, Op::Vacuum],
+        vec![Op::IA(1), Op::Drop, Op::GA(1)],
+    ];
+    for (i, a) in t3.iter().enumerate() {
+        for b in t3.iter().skip(i) {
+            v.push((vec![a.clone(), b.clone()], if thorough { 4 } else { 3 }));
+        }
+    }
     if thorough {
-        // three threads, selected programs of length 3
-        let t3 = [
-            vec![Op::IA(1), Op::Drop, Op::IA(1)],
-            vec![Op::IA(1), Op::Clone, Op::Drop],
-            vec![Op::Vacuum, Op::GA(1), Op::Vacuum],
-            vec![Op::IS(1), Op::Drop, Op::IS(1)],
-        ];
+        // every pair of programs of length 3
+        let p3 = programs(3);
+        let useful = |x: &Vec<Op>| x.iter().any(|o| matches!(o, Op::IA(_) | Op::IB(_) | Op::IS(_) | Op::GA(_)));
+        for (i, p) in p3.iter().enumerate() {
+            for q in p3.iter().skip(i) {
+                if useful(p) && useful(q) {
+                    v.push((vec![p.clone(), q.clone()], 2));
+                }
+            }
+        }
+        // three threads
         for a in &t3 {
             for b in &t3 {
                 v.push((vec![a.clone(), b.clone(), t3[2].clone()], 2));
@@ -252,6 +272,10 @@ struct Nest {
     list: Vec<Interned<VA>>,
     pair: (Interned<VB>, Option<Interned<VA>>),
     text: Vec<Interned<str>>,
+    /// the same contents as `text`, interned as another type (equal content
+    /// hash, different type)
+    owned: Vec<Interned<String>>,
+    slice: Option<(Interned<[u32]>, Interned<Vec<u32>>)>,
 }
 
 fn sharing(n: &Nest) -> Vec<usize> {
@@ -288,7 +312,7 @@ fn sharing(n: &Nest) -> Vec<usize> {
 
 /// every shape: which VA value each position holds (values 1..=2), list
 /// length 0..=3, optional handle present or not, texts 0..=2
-fn encoding_part() -> (u64, Vec<String>) {
+pub fn encoding_part() -> (u64, Vec<String>) {
     let mut n = 0u64;
     let mut bad = Vec::new();
     let mk_plugin = || {
@@ -317,6 +341,15 @@ fn encoding_part() -> (u64, Vec<String>) {
                                 text: (0..texts)
                                     .map(|i| enc_int.intern_unsized((i % 1).to_string()))
                                     .collect(),
+                                owned: (0..texts).map(|i| enc_int.intern((i % 1).to_string())).collect(),
+                                slice: if opt == 2 {
+                                    Some((
+                                        enc_int.intern_unsized(vec![1u32, 2]),
+                                        enc_int.intern(vec![1u32, 2]),
+                                    ))
+                                } else {
+                                    None
+                                },
                             };
                             let mut buf = Vec::new();
                             PostcardEncoder::new(&mut buf).encode(&v, &enc_plugin).unwrap();
